@@ -16,10 +16,11 @@ META = {
              ded='mirror_descent: a line-search step is accepted exactly when the decrease of the candidate computed from omega - alpha*dL is >= 0.5*alpha*<dL, nu - mu> (branch-site contract). '
                  'Convergence of three floating-point solvers "given enough iterations" is outside deductive reach (not applicable at clause level).',
              trusted=['belief_propagation, _marginal_loss, dot are deterministic side-effect-free callees']),
- 'C04': dict(technique=DED + ': loop invariants with quantified facts for fix_measurements, exactly-once grouping in _setup, relational clause that _lipschitz and _setup select the same clique; loss/gradient formulas by bounded finite differences',
+ 'C04': dict(technique=DED + ': loop invariants with quantified facts for fix_measurements, exactly-once grouping in _setup, relational clause that _lipschitz and _setup select the same clique; loss and gradient of _marginal_loss in the one-cell instance (gradient term = derivative of loss term, both metrics); the n-dimensional formulas by bounded finite differences',
              ded='fix_measurements: same length and order, proj str/list/tuple normalised, None -> identity of the right size, y and noise untouched (forall k, by loop invariant). '
                  '_setup: each measurement appended to at most one group, as itself, under the first containing clique of the size-sorted clique list. '
-                 '_lipschitz: each measurement accumulated at most once under the first containing clique of the same sorted list (hence the same clique as _setup).',
+                 '_lipschitz: each measurement accumulated at most once under the first containing clique of the same sorted list (hence the same clique as _setup). '
+                 '_marginal_loss in the one-cell instance (all operands 1x1): loss = sum 0.5((Qx-y)/noise)^2 resp. sum |Qx-y|/noise and each gradient contribution is its derivative, for all real Q, x, y, noise > 0, any number of cliques and measurements (loop invariants); a refuted instance is replayed on the real method with 1x1 arrays against a finite difference.',
              trusted=['sorted / set / sparse.eye / domain.size are deterministic callees', 'L-spec (eigenvalue sub-additivity and the marginalisation bound) turning the per-clique sums into a Hessian bound: assumed, exercised bounded']),
  'C05': dict(level='proof', technique=DED + ': ghost privacy ledger (zCDP / pure-DP) as postcondition and loop invariant of every mechanism function, sensitivities as ghost attributes of private values',
              ded='MST, measure, select, compress_domain, transform_data; mwem_pgm (4 parameter spellings x noise kinds, bounded flag symbolic), worst_approximated; AIM.run, AIM.worst_approximated, Mechanism.__init__; adagrid (both split modes), select: '
@@ -32,7 +33,7 @@ META = {
                       'counting lemma count_len_lt (elementary), sumsq scaling and closed form for np.ones (lemmas of the sequence theory)'],
              assumptions=['floats are mathematical reals: every "<= rho" is proved up to rounding',
                           'partial correctness: a run that raises releases nothing (AIM with rounds < 0.9*#one-way marginals overspends internally and then raises before returning; sqrt of a negative remaining budget is modelled as abort there)',
-                          'IEEE division-by-zero sites assumed away: aim.py `1/(2*0.9*remaining)` (remaining == 0 gives sigma = inf, eps = 0), adaptive_grid.py `0.5/rho_step_1`, `0.5/rho_step_3` (rho == 0)']),
+                          'IEEE division-by-zero sites assumed away: aim.py `1/(<const>*remaining)` (remaining == 0 gives sigma = inf, eps = 0), adaptive_grid.py `0.5/rho_step_1`, `0.5/rho_step_3` (rho == 0)']),
  'C06': dict(level='proof', technique=DED + ': information-flow (taint) obligations on the same symbolic execution as C05: branch conditions, loop bounds, filters, noise scales/sizes, estimate() arguments and return values are public',
              ded='every if/while condition, loop bound, comprehension filter, scale/size of a noise draw, candidate count of a selection, argument of FactoredInference.estimate and returned value of each mechanism function is public; '
                  'private values reach only release operands and selection scores; Dataset.records is public exactly under replace adjacency.',
@@ -49,8 +50,9 @@ META = {
              ded='the stored parameters carry -inf at every declared cell (MD) and the stored marginals are zero there (MD, RDA, IG) at every exit, by loop invariants over the solvers; '
                  'RDA needs the re-application of the structural-zero factor after rebuilding theta (the pre-fix tree fails this obligation).',
              trusted=['A1-A8 of pv/contracts/inference.py (extended-real algebra of +, -, scalar *, combine, BP-zero), assumed and exercised by the bounded tier']),
- 'C11': dict(technique=DED + ': row-count postcondition of the inner synthetic_col under a sum abstraction of numpy arrays; domain/zero-support/rounding-error clauses by bounded run-time contract',
-             ded='synthetic_col (round and sample mode): exactly `total` entries are produced, for all count vectors and totals.',
+ 'C11': dict(technique=DED + ': row-count postcondition of the inner synthetic_col under a sum abstraction of numpy arrays; frame obligations (the array synthetic_col rescales in place is private to the call: returns-fresh contracts of GraphicalModel.project, Factor.project/sum/exp, variable_elimination_logspace, alias contracts of transpose/datavector); domain/zero-support/rounding-error clauses by bounded run-time contract',
+             ded='synthetic_col (round and sample mode): exactly `total` entries are produced, for all count vectors and totals. '
+                 'synthetic_data updates in place only arrays allocated in the same call; GraphicalModel.project returns a newly allocated factor on every path (never the cached marginal), so generation cannot change the model a later call realises.',
              trusted=['numpy extern contracts on sums: scaling, np.modf, distinct-index increment, np.repeat length (pv/contracts/synth.py)'],
              assumptions=['the sampling-distribution clause (sample mode follows the model) is statistical: not applicable to this technique, only a loose bounded sanity check']),
  'C12': dict(technique=DED + ': site contracts for the message-dependency relation, spanning-tree weights and fill-in; running intersection decided by exhaustive bounded enumeration (<= 5 attributes x all orders)',
@@ -58,16 +60,19 @@ META = {
              trusted=['networkx: topological_sort is a linear extension listing every node once; minimum_spanning_tree; find_cliques', 'chordality of the fill-in graph and the max-weight-spanning-tree theorem (graph theory, not SMT-dischargeable): bounded exhaustive check']),
  'C13': dict(technique='contract-based frame / definite-assignment obligations decided by a flow analysis of the real AST (pv/vc/frames.py); histories compared with a fresh estimator in the bounded tier',
              ded='def-before-use: every read of estimator state that survives between calls (model, groups) is preceded by an assignment in the same estimate() call, or guarded by warm_start. '
-                 'owned-target: every in-place update in estimate, _setup, _marginal_loss, the three solvers, belief_propagation, mle, project, synthetic_data, combine, active targets an object allocated in the same activation.',
-             trusted=['allocation expressions (copy, zeros, Factor(...), arithmetic, comprehensions) return fresh objects; numpy views of fresh arrays are owned'],
+                 'State created in __init__ but updated in place later (self.cache[k] = v, self.groups[cl].append) counts as surviving state. '
+                 'owned-target: every in-place update in estimate, _setup, _marginal_loss, the three solvers, belief_propagation, mle, project, synthetic_data, combine, active targets an object allocated in the same activation. '
+                 'returns-fresh: 24 Factor / CliqueVector / GraphicalModel methods that callers treat as allocators return newly allocated storage on every path (transpose and datavector(flatten=False) alias the receiver and nothing else). '
+                 'stores-fresh: the model object _setup stores in self.model (and estimate returns) is allocated in that call, and no other method binds self.model: a later call cannot update an earlier result.',
+             trusted=['numpy / scipy / pandas / builtin allocators (np.zeros, np.sum incl. axis=(), ndarray.copy/flatten/astype, arithmetic, comprehensions) return fresh objects; np.broadcast_to returns a read-only view (an in-place update through it raises); numpy views of fresh arrays are owned'],
              assumptions=['the solver-options dict (`options`) is written by design (its callback key); outside the property']),
  'C14': dict(technique=DED + ': Factor representation invariant (axis p labelled domain.attrs[p], size domain.shape[p]) preserved by expand, transpose, +, *, logaddexp, -, /, +=, *=, exp, log, copy over a label-level model of numpy; aggregations bounded',
              ded='for factors of every rank and attribute order: the constructor preconditions (axis labelled by the attribute at that position / same size) and numpy preconditions (moveaxis destinations in range and distinct, broadcast sizes, operand axes aligned) hold at every call site of the 12 listed methods. '
                  'sum/logsumexp/max/project/condition are NOT under deductive contract (selection-uniqueness obligations time out): bounded only.',
              trusted=['label-level extern contracts of reshape / moveaxis / broadcast_to / elementwise ops (pv/vc/ndlabels.py)', 'Domain contracts of C15', 'ASSUMED: distinctness and config law of Domain.merge results (not proved, bounded in C15)',
                       'sequence-theory lemmas: pigeonhole, membership in concatenations / equal sequences']),
- 'C15': dict(technique=DED + ': Domain algebra over symbolic attribute sequences of every length (membership, first index, order-preserving selection, concatenation, products); Dataset.datavector by bounded counting oracle',
-             ded='Domain.__init__, project (3 spellings), transpose, marginalize, invert, canonical, axes, merge, contains, size (2 spellings), __eq__, __contains__, __getitem__, __len__, fromdict against set / order / product laws, with the representation invariant (lengths agree, attributes distinct, config matches shape).',
+ 'C15': dict(technique=DED + ': Domain algebra over symbolic attribute sequences of every length (membership, first index, order-preserving selection, concatenation, products); Dataset.project by site contracts; Dataset.datavector by bounded counting oracle',
+             ded='Dataset.project: the requested column list reaches the frame selection and the domain projection unchanged (a bare str/int wrapped), and the result is built from exactly those with the weights carried over. Domain.__init__, project (3 spellings), transpose, marginalize, invert, canonical, axes, merge, contains, size (2 spellings), __eq__, __contains__, __getitem__, __len__, fromdict against set / order / product laws, with the representation invariant (lengths agree, attributes distinct, config matches shape).',
              trusted=['sequence theory of pv/vc/arrays.py (quantified facts instantiated by E-matching; lemmas: product over concatenation, equal sequences have equal products/members)', 'numpy.histogramdd and pandas column selection (bounded tier)'],
              assumptions=['NOT proved: distinctness and config law of merge\'s result (instantiation search does not converge); Domain.sort (sorted is an extern)']),
  'C16': dict(technique=DED + ' for the normalisation clause (every stored table sums to the total, for arbitrary clique sets); exactness on acyclic structures by bounded run-time contract',
@@ -76,11 +81,11 @@ META = {
  'C17': dict(technique=DED + ' for normalisation of the returned beliefs; optimality by bounded KKT certificate',
              ded='hazan_peng_shashua: every belief stored in mu sums to self.total. The stationarity pattern of the belief update is not expressible (comprehension sums are not deterministic terms in the encoding): decided by the bounded KKT certificate.',
              trusted=['exp/log identities over the reals', 'L-kkt (bounded tier)']),
- 'C18': dict(technique=DED + ': oracle interface obligations (every attribute LocalInference uses on its oracle is defined by RegionGraph and FactorGraph) + normalisation idiom; fit and exactness by bounded run-time contract',
-             ded='interface: belief_propagation, cliques, damping, domain, messages, potentials, primal_feasibility are assigned on every path of __init__ (following build_graph etc.) or are methods, for both oracle classes; returned tables sum to the total.',
+ 'C18': dict(technique=DED + ': oracle interface obligations (every attribute LocalInference uses on its oracle is defined by RegionGraph and FactorGraph) + normalisation idiom + one-cell instance of LocalInference._marginal_loss (gradient term = derivative of loss term); fit and exactness by bounded run-time contract',
+             ded='interface: belief_propagation, cliques, damping, domain, messages, potentials, primal_feasibility are assigned on every path of __init__ (following build_graph etc.) or are methods, for both oracle classes; returned tables sum to the total. LocalInference._marginal_loss in the one-cell instance: see C04 (same contract on the copy), replayed natively when refuted.',
              trusted=['definite-assignment analysis of __init__ (pv/vc/iface.py)']),
- 'C19': dict(technique=DED + ': loop invariant on the exp-sum of the log-weights in entropic_mirror_descent; never-worse-than-uniform by bounded run-time contract',
-             ded='entropic_mirror_descent returns weights summing to total, or to total*(1 + n*tiny/sum(x0)) if no step was ever accepted. '
+ 'C19': dict(technique=DED + ': loop invariant on the exp-sum of the log-weights in entropic_mirror_descent; site contracts of estimate_total (the total the weights must sum to) and of Dataset.project (marginals laid out in the attribute order of the measurement); never-worse-than-uniform by bounded run-time contract',
+             ded='entropic_mirror_descent returns weights summing to total, or to total*(1 + n*tiny/sum(x0)) if no step was ever accepted. estimate_total (public_inference.py copy): formula of the inverse-variance estimate as in C09. Dataset.project: requested column order reaches frame and domain unchanged. '
                  '"Never worse than uniform" is not derivable: the acceptance test compares against P, which is never updated after initialisation (observation recorded in DESIGN.md).',
              trusted=['exp/log identities over the reals']),
 }
